@@ -201,6 +201,14 @@ theorem reset_caches_irrelevant_par (ops : Ops F64 R Q U) (sched : Scheduler) (k
 theorem restored_cache_valid (ops : Ops F64 R Q U) (tc : TC F64 R Q) : CacheValid ops (resetCaches tc) :=
   cacheValid_reset ops tc
 
+/-- The caches stay valid across tempering steps whenever `ham_eq` depends only on data (`sig`: edges, fields) that
+`set_op_cutoff` and `swap_graphs` leave in place — so *every* snapshot point (also "right after a swap") satisfies the
+hypothesis of `reset_caches_irrelevant`. -/
+theorem cache_valid_preserved {H : Type} (ops : Ops F64 R Q U) (sig : Q → H) (eqH : H → H → Bool)
+    (hs : HamStable ops sig eqH) (tc : TC F64 R Q) (h : CacheValid ops tc) :
+    CacheValid ops (temperingStep ops tc) :=
+  step_cacheValid hs tc h
+
 end Tempering
 
 /-! ## Non-vacuity and the role of the hypotheses -/
@@ -232,6 +240,31 @@ example : counts (⟨[5, 6], false⟩ : Allocator Nat).serdeRT = (2, false) := r
 /-- an exhausted restored pool panics exactly like the original -/
 example : runCounts [.get, .get, .get] (2, false) = none := rfl
 example : runCounts [.get, .get, .ret, .ret] (2, false) = some (2, false) := rfl
+
+/-- a concrete replica model satisfying `HamStable`: replica = (Hamiltonian tag, (cutoff, state tag)); a swap
+exchanges the second components only -/
+def toyOps : Ops Nat Nat (Nat × Nat × Nat) Bool where
+  hamEq a b := a.1 == b.1
+  cutoff q := q.2.1
+  setCutoff c q := (q.1, c, q.2.2)
+  swapOn a b u _ := if u then (((a.1.1, b.1.2), a.2), ((b.1.1, a.1.2), b.2), true) else (a, b, false)
+  genHalf r := (r % 2 == 0, r / 2)
+  genUnif r := (r % 3 == 0, r / 3)
+
+example : HamStable toyOps (fun q => q.1) (fun a b => a == b) where
+  hamEq_sig _ _ := rfl
+  sig_setCutoff _ _ := rfl
+  sig_swap a b u e := by cases u <;> exact ⟨rfl, rfl⟩
+
+def toyTC : TC Nat Nat (Nat × Nat × Nat) :=
+  { graphs := [((1, 2, 10), 1), ((1, 3, 11), 2), ((2, 4, 12), 3)], rng := some 36, graph_ham_eq_a := none,
+    graph_ham_eq_b := none, total_swaps := 0 }
+
+/-- the toy step really swaps and fills the caches (the statement is not about a no-op) -/
+example : (temperingStep toyOps toyTC).total_swaps = 2 ∧
+    (temperingStep toyOps toyTC).graph_ham_eq_a = some [true] ∧
+    (temperingStep toyOps toyTC).graph_ham_eq_b = some [false] ∧
+    (temperingStep toyOps toyTC).graphs.map (·.1.2.2) = [11, 12, 10] := by decide
 
 end Examples
 
